@@ -5,7 +5,7 @@
 use super::common::*;
 use super::frames::*;
 use crate::filters::Filters;
-use rs1090::decode::{Message, TimedMessage, ICAO};
+use rs1090::decode::{Message, TimedMessage};
 use serde_json::{json, Value};
 
 pub struct Rec {
@@ -61,6 +61,7 @@ pub fn timed(frame: &[u8], decode: bool) -> TimedMessage {
         message: if decode { Message::try_from(frame).ok() } else { None },
         metadata: vec![],
         decode_time: None,
+        ..Default::default()
     }
 }
 
@@ -68,7 +69,12 @@ const ADDR_FORMATS: [&str; 9] = ["0", "4", "5", "11", "16", "17", "18", "20", "2
 
 /// One case; returns (expected, got) or a panic message
 fn case(t: &TimedMessage, shown: &Option<(String, u32)>, dff: &Option<Vec<String>>, acf: &Option<Vec<u32>>) -> Result<(bool, bool), String> {
-    let f = Filters { df_filter: dff.clone(), aircraft_filter: acf.as_ref().map(|v| v.iter().map(|a| ICAO(*a)).collect()) };
+    // built the way a user builds it (the deserialised configuration form), so that an additional optional
+    // member of Filters does not stop this file from compiling
+    let mut cfg = serde_json::Map::new();
+    if let Some(v) = dff { cfg.insert("df_filter".into(), serde_json::json!(v)); }
+    if let Some(v) = acf { cfg.insert("aircraft_filter".into(), serde_json::json!(v.iter().map(|a| format!("{:06x}", a)).collect::<Vec<_>>())); }
+    let f: Filters = serde_json::from_value(serde_json::Value::Object(cfg)).map_err(|e| format!("harness: Filters from its configuration form: {e}"))?;
     let got = guarded(|| Filters::is_in(&f, t))?;
     let exp = match shown {
         None => false,
